@@ -213,6 +213,17 @@ func (x *Exec) applyContract(n *node, fs *FuncSpec, callee *ssa.Function, name s
 	}
 	// havoc modifies
 	x.havocForCall(n, fs, cs, callee, args, env)
+	// "observed" ghost flags may be raised by the callee (they never go back to false)
+	for _, flag := range x.P.Spec.Observes {
+		key := "ghost." + flag
+		s := Arr(IntS, BoolS)
+		old := x.heap(st, key, s)
+		na := x.VC.Fresh("obs."+flag, s)
+		o := x.VC.Fresh("oo", IntS)
+		x.VC.AssumeForall([]*Term{o}, n.guard, Implies(Select(old, o), Select(na, o)), "observe-monotone")
+		st.Heap[key] = na
+		delete(st.Shapes, key)
+	}
 	// results
 	var results []Value
 	var sig *types.Signature
@@ -242,6 +253,12 @@ func (x *Exec) applyContract(n *node, fs *FuncSpec, callee *ssa.Function, name s
 		}
 		if len(results) > 1 {
 			post.vars["err"] = results[len(results)-1]
+		}
+	}
+	for _, c := range cs.Clauses {
+		if c.Kind == "ghostset" {
+			x.applyGhostSet(c, post, st)
+			x.reportSpecErrors(post, name, c)
 		}
 	}
 	for _, c := range cs.Clauses {
@@ -350,7 +367,7 @@ func (x *Exec) havocForCall(n *node, fs *FuncSpec, cs *Case, callee *ssa.Functio
 	st := n.st
 	covered := map[string]bool{}
 	for _, c := range cs.Clauses {
-		if c.Kind != "modifies" {
+		if c.Kind != "modifies" || c.Text == "fresh" {
 			continue
 		}
 		env.assume = false
@@ -377,6 +394,13 @@ func (x *Exec) havocForCall(n *node, fs *FuncSpec, cs *Case, callee *ssa.Functio
 	}
 	if callee == nil || callee.Blocks == nil {
 		return
+	}
+	for _, c := range cs.Clauses {
+		if c.Kind == "modifies" && c.Text == "fresh" {
+			// every write not covered by a declared target goes to objects the callee allocated itself (checked
+			// against the callee's body): nothing the caller can see changes
+			return
+		}
 	}
 	for k := range x.P.Writes(callee) {
 		if strings.HasPrefix(k, "deref:") {
@@ -444,7 +468,9 @@ func (x *Exec) havocPrefix(n *node, k string) {
 			}
 			if key == k || strings.HasPrefix(key, k+".") {
 				seen[key] = true
-				x.setHeap(st, key, x.VC.Fresh("hv."+key, t.S), nil)
+				nc := x.VC.Fresh("hv."+key, t.S)
+				x.refBoundFact(nc, st.Next)
+				x.setHeap(st, key, nc, nil)
 			}
 		}
 	}
@@ -455,6 +481,10 @@ func (x *Exec) havocPrefix(n *node, k string) {
 	// components with this prefix that are not materialised yet get a new epoch
 	x.epoch++
 	st.Havoc[k] = x.epoch
+	if x.epochNext == nil {
+		x.epochNext = map[int]*Term{}
+	}
+	x.epochNext[x.epoch] = st.Next
 }
 
 // havocLater records that component prefix k was havocked before being materialised.
@@ -714,3 +744,65 @@ func (x *Exec) runDefers(fc *funcCtx, n *node) {
 }
 
 func impliesSyntactically(a, b *Term) bool { return a == b }
+
+// applyGhostSet executes `ghostset gf_name(obj) = expr` on state st, evaluating in env.
+func (x *Exec) applyGhostSet(c *Clause, env *SpecEnv, st *State) {
+	call, ok := c.Lhs.(*ast.CallExpr)
+	if !ok || len(call.Args) > 1 {
+		env.errorf("ghostset: target must be gf_name(obj), gb_name(obj), gg_name() or ggb_name()")
+		return
+	}
+	id, ok := call.Fun.(*ast.Ident)
+	if !ok || !(strings.HasPrefix(id.Name, "gf_") || strings.HasPrefix(id.Name, "gb_") || strings.HasPrefix(id.Name, "gg_") || strings.HasPrefix(id.Name, "ggb_")) {
+		env.errorf("ghostset: target must be gf_name(obj), gb_name(obj), gg_name() or ggb_name()")
+		return
+	}
+	var obj *Term
+	gname := id.Name[3:]
+	isBool := strings.HasPrefix(id.Name, "gb_")
+	if len(call.Args) == 0 {
+		obj = IntLit(0)
+		if strings.HasPrefix(id.Name, "ggb_") {
+			gname = "global." + id.Name[4:]
+			isBool = true
+		} else {
+			gname = "global." + id.Name[3:]
+		}
+	} else {
+		switch v := env.eval(call.Args[0]).(type) {
+		case Scalar:
+			obj = v.T
+		case IfaceV:
+			obj = v.Val
+		case LocV:
+			obj = v.Obj
+		}
+	}
+	if obj == nil {
+		env.errorf("ghostset: object expected")
+		return
+	}
+	var rhs *Term
+	if isBool {
+		rhs = env.EvalBool(c.Expr)
+	} else {
+		switch v := env.eval(c.Expr).(type) {
+		case Scalar:
+			rhs = v.T
+		case SliceV:
+			if v.Str {
+				rhs = x.sid(v)
+			}
+		}
+	}
+	if rhs == nil {
+		env.errorf("ghostset: unsupported value")
+		return
+	}
+	save := env.st
+	env.st = st
+	st.noRecord++
+	x.objSet(st, "ghost."+gname, obj, rhs)
+	st.noRecord--
+	env.st = save
+}
